@@ -10,6 +10,7 @@ M — faithful model of libcoap's resource-discovery printer (src/coap_resource.
                             the per-resource filter                    → `selectsM`
                             the RESOURCES_ITER loop + status           → `wkLoop`, `wellknown`
   hnd_get_wellknown_lkd (src/coap_net.c): size probe + full print      → `hndBody`
+                                          filter = first Uri-Query     → `getFilter`, `getBody`
 
 A C pointer is the list of bytes from that position to the end of the object it points into
 (an attribute value, the query string); reading `p[i]` outside that list, or letting
@@ -329,33 +330,17 @@ def hndBody (t : Table) (qf : Option Bytes) : R Bytes :=
         else R.ok (full.out.take full.total)     -- data_string->length = len
     else R.ok []
 
-/-! ### the query string the GET handler receives: coap_get_query() (src/coap_uri.c), one Uri-Query option -/
+/-! ### the filter of the GET handler (hnd_get_wellknown_lkd after the fix): the first Uri-Query option as it is -/
 
-/-- `is_unescaped_in_query` -/
-def isUnescapedInQuery (c : UInt8) : Bool :=
-  (0x41 ≤ c && c ≤ 0x5A) || (0x61 ≤ c && c ≤ 0x7A) || (0x30 ≤ c && c ≤ 0x39) ||
-  c == 0x2D || c == 0x2E || c == 0x5F || c == 0x7E || c == 0x21 || c == 0x24 || c == 0x27 || c == 0x28 ||
-  c == 0x29 || c == 0x2A || c == 0x2B || c == 0x2C || c == 0x3B || c == 0x3D || c == 0x3A || c == 0x40 ||
-  c == 0x26 || c == 0x2F || c == 0x3F
+/-- `opt = coap_check_option(request, COAP_OPTION_URI_QUERY, …); if (opt && coap_opt_length(opt) > 0) filter = copy`;
+`opts` are the values of the request's Uri-Query options in wire order (already percent-decoded: they are option bytes) -/
+def getFilter (opts : List Bytes) : Option Bytes :=
+  match opts with
+  | [] => none
+  | o :: _ => if o.length > 0 then some o else none
 
-/-- `"0123456789ABCDEF"[n]` -/
-def hexUpper (n : Nat) : UInt8 := if n < 10 then UInt8.ofNat (48 + n) else UInt8.ofNat (55 + n)
-
-/-- the option value with every other byte written as `%XX` — the handler is handed the *escaped* query -/
-def escapeQuery : Bytes → Bytes
-  | [] => []
-  | c :: r =>
-    if isUnescapedInQuery c then c :: escapeQuery r
-    else 0x25 :: hexUpper (c.toNat / 16) :: hexUpper (c.toNat % 16) :: escapeQuery r
-
-/-- `coap_get_query(request)`: NULL when there is nothing -/
-def getQuery (opt : Option Bytes) : Option Bytes :=
-  match opt with
-  | none => none
-  | some o => if (escapeQuery o).length > 0 then some (escapeQuery o) else none
-
-/-- body of the response to `GET /.well-known/core?<opt>` -/
-def getBody (t : Table) (opt : Option Bytes) : R Bytes := hndBody t (getQuery opt)
+/-- body of the response to `GET /.well-known/core` with the Uri-Query options `opts` -/
+def getBody (t : Table) (opts : List Bytes) : R Bytes := hndBody t (getFilter opts)
 
 /-- number of responses of a complete Block2 transfer with block size `sz` -/
 def nblocks (len sz : Nat) : Nat := if len = 0 then 1 else (len + sz - 1) / sz
